@@ -51,7 +51,8 @@ Record session := mk_session {
   s_gr : bool;
   s_multihop : bool;
   s_disable_mp : bool;
-  s_advs : list adv
+  s_advs : list adv;
+  s_secret : string * string         (* PasswordRef: name, namespace (frr-k8s mode only) *)
 }.
 
 (* ---- AST of the text ---- *)
